@@ -127,6 +127,12 @@ func (sc *SCtx) ident(name string) (Val, error) {
 	if v, ok := sc.bound[name]; ok {
 		return v, nil
 	}
+	if sc.inOld && sc.useParams {
+		// old(x): the entry value of a parameter, also where x is loop-carried
+		if v, ok := sc.g.params[name]; ok {
+			return v, nil
+		}
+	}
 	if sc.vars != nil {
 		if v, ok := sc.vars[name]; ok {
 			return v, nil
@@ -145,6 +151,16 @@ func (sc *SCtx) ident(name string) (Val, error) {
 		}
 	}
 	if sc.useParams {
+		if sc.loopHeader != nil && !sc.inOld {
+			// a loop-carried variable shadows the parameter of the same name
+			for _, in := range sc.loopHeader.Instrs {
+				if phi, ok := in.(*ssa.Phi); ok && phi.Comment == name {
+					if v, ok := sc.g.env[phi]; ok {
+						return v, nil
+					}
+				}
+			}
+		}
 		if v, ok := sc.g.params[name]; ok {
 			return v, nil
 		}
